@@ -178,16 +178,19 @@ theorem stepC_sound (idx : Nat → Nat) (arr : Nat → Int) (cache : Nat → Opt
     exact LStep.pop_fail
   · simp [pcOK] at hp
   -- rmChk
-  · rename_i k _ v hc hne
+  · rename_i k f _ v hc hne
     have hbk := hb k
     simp [Caller.reads, Pc.readKey, Pc.writeKey] at hbk
     exact LStep.rmChk_raise hc (count_pos_of_book (by rw [← hbk]; exact hne))
-  · rename_i k _ v hc hne
+  · rename_i k f _ v hc hne
     have hbk := hb k
     simp [Caller.reads, Pc.readKey, Pc.writeKey] at hbk
     refine LStep.rmChk_go hc (fun hm => hne ?_)
     have : 0 < stack.count k := List.count_pos_iff.mpr hm
     omega
+  -- rmRemove: the inner rmv raises / succeeds
+  · rename_i hf; subst hf; exact LStep.rmRemove_fail
+  · rename_i hf; simp at hf; subst hf; exact LStep.rmRemove
   · simp [pcOK] at hp
     subst hp
     exact LStep.unwind
@@ -575,7 +578,7 @@ theorem deadlock_free_core {idx : Nat → Nat} {s : St} (hI : Inv idx s)
     cases ht : c.terminal with
     | true => rw [(terminal_pc ht).1]; rfl
     | false =>
-      rcases hspin j c hj ht with ⟨k, g, hp, _⟩ | ⟨k, g, hp, _⟩ | ⟨k, hp, _⟩ <;> rw [hp] <;> rfl
+      rcases hspin j c hj ht with ⟨k, g, hp, _⟩ | ⟨k, g, hp, _⟩ | ⟨k, f, hp, _⟩ <;> rw [hp] <;> rfl
   have hW0 : ∀ i, s.W idx i = 0 := by
     intro i
     apply sumBy_zero
@@ -597,7 +600,7 @@ theorem deadlock_free_core {idx : Nat → Nat} {s : St} (hI : Inv idx s)
   obtain ⟨j, hj⟩ := List.getElem?_of_mem hc
   -- the key it wants, and the fact that somebody reads that index
   have hwant : ∃ k, wantIdx idx c = idx k ∧ s.arr (idx k) ≠ 0 := by
-    rcases hspin j c hj hct with ⟨k, g, hp, hlt⟩ | ⟨k, g, hp, hne⟩ | ⟨k, hp, hne⟩
+    rcases hspin j c hj hct with ⟨k, g, hp, hlt⟩ | ⟨k, g, hp, hne⟩ | ⟨k, f, hp, hne⟩
     · have := harr (idx k); omega
     · exact ⟨k, by simp [wantIdx, hp], hne⟩
     · exact ⟨k, by simp [wantIdx, hp], hne⟩
@@ -620,7 +623,7 @@ theorem deadlock_free_core {idx : Nat → Nat} {s : St} (hI : Inv idx s)
   have hle := hmax d hd hdt
   have hHd := hH jd d hjd
   have hPd := hI.pc jd d hjd
-  rcases hspin jd d hjd hdt with ⟨kd, g, hp, hlt⟩ | ⟨kd, g, hp, _⟩ | ⟨kd, hp, _⟩
+  rcases hspin jd d hjd hdt with ⟨kd, g, hp, hlt⟩ | ⟨kd, g, hp, _⟩ | ⟨kd, fd, hp, _⟩
   · have := harr (idx kd); omega
   · simp [Caller.reads, hp, Pc.readKey] at hk'
     simp [hierC, hp, hierOk] at hHd
